@@ -686,6 +686,12 @@ def execute(trace, ctx=None):
                 res.probe('call-after-backward-jump')
             prev = newprev
             prev_table = out
+            # the returned table is the caller's: it may scribble on it (what is fed back tomorrow is rebuilt from the values)
+            try:
+                out['scribble'] = 1
+                out[col] = ['scribbled'] * len(out)
+            except Exception:
+                pass
             if partial:
                 break          # rows with an unknown key column are not fed back
         res.steps = len(trace['ops'])
